@@ -3,11 +3,13 @@ import DaskModel.Model.Slice1D
 import DaskModel.Model.SetItem
 import DaskModel.Model.Store
 import DaskModel.Model.Take
+import DaskModel.Model.ArrOverlap
 open Dask
 open Dask.Slice1D
 open Dask.SetItem
 open Dask.Store
 open Dask.Take
+open Dask.ArrOverlap
 
 /-! Line-protocol handlers of group `slicing` (C20, C21, C26, C29). -/
 
@@ -192,6 +194,55 @@ def hRevValue : Handler := handler fun args =>
     | none => pure raised
   | _ => none
 
+/-! ### C26 -/
+
+def toBoolSym? (e : SExp) : Option Bool := e.toBool?
+
+/-- `(overlapchunks dl dr (cs…))` -/
+def hOverlapChunks : Handler := handler fun args =>
+  match args with
+  | [a, b, cs] => do pure (SExp.ofNats (overlapChunks (← a.toNat?) (← b.toNat?) (← cs.toNats?)))
+  | _ => none
+
+/-- `(trimchunks bdyNone dl dr (cs…))` -/
+def hTrimChunks : Handler := handler fun args =>
+  match args with
+  | [bn, a, b, cs] => do
+    pure (SExp.ofInts (trimChunks (← toBoolSym? bn) (← a.toNat?) (← b.toNat?) (← cs.toInts?)))
+  | _ => none
+
+/-- `(ensuremin size (cs…))` ↦ `(ok (cs…))` | `(raised)` -/
+def hEnsureMin : Handler := handler fun args =>
+  match args with
+  | [sz, cs] => do
+    match ensureMin (← sz.toNat?) (← cs.toNats?) with
+    | some r => pure (ok [SExp.ofNats r])
+    | none => pure raised
+  | _ => none
+
+/-- `(overlapblocks dl dr ((blk…) …))` -/
+def hOverlapBlocks : Handler := handler fun args =>
+  match args with
+  | [a, b, bs] => do pure (SExp.ofNatss (overlapBlocks (← a.toNat?) (← b.toNat?) (← bs.toNatss?)))
+  | _ => none
+
+/-- `(trimblocks bdyNone dl dr ((blk…) …))` -/
+def hTrimBlocks : Handler := handler fun args =>
+  match args with
+  | [bn, a, b, bs] => do
+    pure (SExp.ofNatss (trimBlocks (← toBoolSym? bn) (← a.toNat?) (← b.toNat?) (← bs.toNatss?)))
+  | _ => none
+
+/-- `(padpositions kind d n)` ↦ positions, `none` for the constant fill -/
+def hPadPositions : Handler := handler fun args =>
+  match args with
+  | [.sym k, d, n] => do
+    let k ← match k with
+      | "periodic" => some Kind.periodic | "reflect" => some Kind.reflect
+      | "nearest" => some Kind.nearest | "constant" => some Kind.constant | _ => none
+    pure (.list ((padPositions k (← d.toNat?) (← n.toNat?)).map SExp.ofOptNat))
+  | _ => none
+
 /-! ### C29 -/
 
 /-- `(slicesfromchunks ((c…) …))` ↦ per block `((start stop) …)` in product order -/
@@ -241,6 +292,8 @@ def hNpyChunks : Handler := handler fun args =>
   | _ => none
 
 def table : List (String × Handler) := [
+  ("overlapchunks", hOverlapChunks), ("trimchunks", hTrimChunks), ("ensuremin", hEnsureMin),
+  ("overlapblocks", hOverlapBlocks), ("trimblocks", hTrimBlocks), ("padpositions", hPadPositions),
   ("slicesfromchunks", hSlicesFromChunks), ("fuseslice", hFuseSlice), ("fuseint", hFuseInt),
   ("storeplan", hStorePlan), ("npychunks", hNpyChunks),
   ("parseslice", hParseSlice), ("blockslices", hBlockSlices), ("blockint", hBlockInt),
